@@ -561,11 +561,11 @@ class C04(Check):
             Variant("shift-added-instead", SIM, S, "t_end -= self._time_shift", "t_end += self._time_shift", expect="T1|"),
             Variant("refusal-strict", SIM, S, "if t_end <= prior_t_end:", "if t_end < prior_t_end:", expect="T6|", quick=True),
             Variant("refusal-strict-tc", SIM, TC, "if time_points[-1] <= prior_t_end:", "if time_points[-1] < prior_t_end:", expect="T6|"),
-            Variant("merge-reversed", SIM, f"{CLS}.update_variables", "sim_variables[-1].iloc[-1, :].to_dict() | variables",
-                    "variables | sim_variables[-1].iloc[-1, :].to_dict()", expect="T4|", quick=True),
-            Variant("shift-from-first-row", SIM, f"{CLS}.update_variables", "float(sim_variables[-1].index[-1])", "float(sim_variables[-1].index[0])", expect="T4|"),
+            Variant("merge-reversed", SIM, f"{CLS}.update_variables", "self.variables[-1].iloc[-1, :].to_dict() | variables",
+                    "variables | self.variables[-1].iloc[-1, :].to_dict()", expect="T4|", quick=True),
+            Variant("shift-from-first-row", SIM, f"{CLS}.update_variables", "float(self.variables[-1].index[-1])", "float(self.variables[-1].index[0])", expect="T4|"),
             Variant("no-reinit-after-override", SIM, f"{CLS}.update_variables",
-                    "    self._time_shift = float(sim_variables[-1].index[-1])\n    self._initialise_integrator()", "    self._time_shift = float(sim_variables[-1].index[-1])", expect="T4|"),
+                    "    self._time_shift = float(self.variables[-1].index[-1])\n    self._initialise_integrator()", "    self._time_shift = float(self.variables[-1].index[-1])", expect="T4|"),
             Variant("clear-forgets-shift", SIM, f"{CLS}.clear_results", "    self._time_shift = None\n", "", expect="T5|", quick=True),
             Variant("clear-forgets-errors", SIM, f"{CLS}.clear_results", "    self._errors = []\n", "", expect="T5|"),
             Variant("clear-no-reinit", SIM, f"{CLS}.clear_results", "    self._initialise_integrator()", "    pass", expect="T5|"),
@@ -596,7 +596,7 @@ class C04(Check):
             Variant("rename-prior", SIM, S, r"\bprior_t_end\b", "prior_end", count=0, regex=True, quick=True),
             Variant("refusal-negated-form", SIM, S, "if t_end <= prior_t_end:", "if not t_end > prior_t_end:"),
             Variant("local-rel-copy", SIM, S, "        t_end -= self._time_shift\n", "        t_end = t_end - self._time_shift\n"),
-            Variant("no-float-cast", SIM, f"{CLS}.update_variables", "float(sim_variables[-1].index[-1])", "sim_variables[-1].index[-1]"),
+            Variant("no-float-cast", SIM, f"{CLS}.update_variables", "float(self.variables[-1].index[-1])", "self.variables[-1].index[-1]"),
         ]
 
 
